@@ -1,4 +1,5 @@
 use ark_ec::{AffineRepr, CurveGroup, Group, ScalarMul, VariableBaseMSM};
+use ark_ff::{BigInteger, Zero};
 use ark_serialize::Valid;
 use ark_std::vec::Vec;
 
@@ -121,7 +122,16 @@ impl AffineRepr for AffinePoint {
     }
 
     fn from_random_bytes(bytes: &[u8]) -> Option<Self> {
-        EdwardsAffine::from_random_bytes(bytes).map(|inner| AffinePoint { inner })
+        let inner = EdwardsAffine::from_random_bytes(bytes)?;
+        // Not every point of the curve represents a decaf377 element: only the
+        // points of 2E do, i.e. those whose order divides 2r.
+        let mut two_r = ark_ff::BigInt(Fr::MODULUS_LIMBS);
+        two_r.mul2();
+        if inner.mul_bigint(two_r).is_zero() {
+            Some(AffinePoint { inner })
+        } else {
+            None
+        }
     }
 
     fn mul_bigint(&self, other: impl AsRef<[u64]>) -> Self::Group {
